@@ -1440,6 +1440,9 @@ fn child_main(seed: u64, domain: Domain, lo: usize, hi: usize, file: &Path, n_se
                 Ok(map) => {
                     nobj = map.hit_objects.len();
                     mode = mode_name(crate::common::mode_idx(map.mode));
+                    // hypothesis of the sorted-map corollaries (Props/C05b.lean): decoded maps are sorted by start time
+                    let sorted = map.hit_objects.windows(2).all(|w| w[0].start_time <= w[1].start_time);
+                    let _ = writeln!(out, "U\t{idx}\t{}", u8::from(sorted));
                     // model lines of this map (accepted or not): `M <idx> <request> <observed>`
                     #[cfg(feature = "p05m")]
                     if !checked_profile() {
@@ -1841,6 +1844,9 @@ fn digest(run: &mut Run, seed: u64, domain: Domain, lines: &[String], label: &st
                 max_ms = max_ms.max(f[7].parse().unwrap_or(0));
                 max_call = max_call.max(f[8].parse().unwrap_or(0));
                 max_hwm = max_hwm.max(f[9].parse().unwrap_or(0));
+            }
+            Some("U") if f.len() >= 3 => {
+                run.count(&format!("{label}decoded map sorted by start time:{}", if f[2] == "1" { "yes" } else { "NO" }));
             }
             Some("M") if f.len() >= 4 => {
                 let idx: usize = f[1].parse().unwrap_or(0);
